@@ -38,7 +38,7 @@ def s_c06(rng, tier, st):
 def s_c07(rng, tier, st): return gen_ops.gen_parallel(rng, N(tier, 8, 100), stats=st)
 def s_c10(rng, tier, st): return gen_ops.gen_keylen(rng, stats=st, junk_patterns=(0xA5, 0x00) if tier == "quick" else (0xA5, 0x00, 0xFF, 0x3C))
 def s_c14(rng, tier, st): return gen_ops.gen_invalid_midstream(rng, N(tier, 6, 60), stats=st) + gen_ops.gen_api_walk(rng, N(tier, 30, 400), 30, invalid_rate=0.35, stats=st) + gen_ops.gen_tweak(rng, N(tier, 2, 20), stats=st)
-def s_c15(rng, tier, st): return gen_ops.gen_api_walk(rng, N(tier, 30, 400), 40, invalid_rate=0.1, stats=st)
+def s_c15(rng, tier, st): return gen_ops.gen_api_walk(rng, N(tier, 30, 400), 40, invalid_rate=0.1, fail_rate=0.15, stats=st)
 def s_c16(rng, tier, st): return gen_ops.gen_api_walk(rng, N(tier, 30, 400), 25, invalid_rate=0.1, fail_rate=0.5, stats=st)
 def s_c17(rng, tier, st): return gen_ops.gen_api_walk(rng, N(tier, 24, 300), 20, invalid_rate=0.05, stats=st)
 
@@ -288,7 +288,7 @@ def oracle_probe(run, tier, rng):
                 return {"ok": False, "what": "back-end selection differs from the model: got %r expected ...%s" % (l, exp), "witness": {"lines": ["# harness/probe_drv.c", l]}}
     # emulated CPU models: the guard-off library (the shipped probes, no cap hook)
     d0 = vlib.build_lib(cfg, hooks=False)
-    emu = _build_aux(run, d0, "cpuemu.c", "cpuemu", "gcc", extra=["-I" + os.path.join(d0, "src")])
+    emu = _build_aux(run, d0, "cpuemu.c", "cpuemu", "gcc", extra=["-I" + os.path.join(d0, "src"), "-lpthread"])
     hi = subprocess.run([emu, "hostinfo"], capture_output=True, text=True).stdout
     hm = re.match(r"maxleaf=(\d+) l1ecx=([0-9a-f]+) l1edx=([0-9a-f]+) l7ebx=([0-9a-f]+) xcr0=([0-9a-f]+)", hi)
     emu_n = 0; emu_ok = False
@@ -310,7 +310,21 @@ def oracle_probe(run, tier, rng):
                 desc = "maxleaf=%d leaf1.ecx=%08x leaf1.edx=%08x leaf7.0.ebx=%08x leaf7.n.ebx=%08x entry_ecx=%08x xcr0=%x" % (mdl + (host["xcr0"],))
                 return {"ok": False, "what": "on the CPU model {%s} the library reports/selects has128=%d has256=%d ctr128=%s parallel_size=%d; the architecture allows has128=%d has256=%d -> %s, %d" % ((desc,) + got + want),
                         "witness": {"lines": ["# replay: build the guard-off library and run harness/cpuemu.c with these arguments", "cpuemu %d %x %x %x %x %x" % mdl, "# got: " + out, "# want: has128=%d has256=%d ctr128=%s psize128=%d" % want]}}
-    return {"ok": True, "lines_checked": n, "host": {"sse2": sse2, "avx2_usable": avx2}, "entry_register_values": 8, "emulated_cpu_models": emu_n, "cpuid_faulting_available": emu_ok}
+    # two threads, first initialisation in the process, every schedule at CPUID granularity (guard-off library)
+    sched_n = 0
+    if emu_ok:
+        wantbe = "vec256" if avx2 else ("vec128" if sse2 else "generic")
+        want = "%s/%d" % (wantbe, 128 if avx2 else 64)
+        for k in range(0, 10 if tier == "quick" else 16):
+            for rep in range(1 if tier == "quick" else 3):
+                out = subprocess.run([emu, "sched", str(k)], capture_output=True, text=True, timeout=60).stdout.strip()
+                g = re.match(r"sched=1 k=(\d+) cpuids=(\d+) A=(\S+) B=(\S+)", out)
+                if not g: break
+                sched_n += 1
+                if g.group(3) != want or g.group(4) != want:
+                    return {"ok": False, "what": "back-end selection depends on the interleaving of two first initialisations: thread B ran while thread A was at its CPUID #%d: A selected %s, B selected %s, the CPU supports %s" % (k, g.group(3), g.group(4), want),
+                            "witness": {"lines": ["# replay: build the guard-off library and run harness/cpuemu.c:", "cpuemu sched %d" % k, "# got: " + out, "# want: A=%s B=%s" % (want, want)]}}
+    return {"ok": True, "lines_checked": n, "host": {"sse2": sse2, "avx2_usable": avx2}, "entry_register_values": 8, "emulated_cpu_models": emu_n, "cpuid_faulting_available": emu_ok, "two_thread_schedules": sched_n}
 
 def fact_c13(facts, meta):
     """the CPUID instruction reads EAX (leaf) and ECX (sub-leaf): every asm statement that executes
@@ -394,6 +408,7 @@ PROPS["C12"] = {"scripts": s_mixed, "configs": cfg_matrix, "backends": all_backe
 PROPS["C13"] = {"scripts": None, "configs": only_default, "backends": one_backend, "modules": [], "theorems": [], "fact_checks": fact_c13, "oracles": [("probe", oracle_probe)]}
 PROPS["C18"] = {"scripts": None, "configs": only_default, "backends": one_backend, "modules": [], "theorems": [], "fact_checks": fact_c18, "oracles": [("threads", oracle_threads)]}
 PROPS["C17"]["fact_checks"] = fact_c17
+PROPS["C17"]["impl_violation"] = lambda line: ("a block was handed to free() with non-zero bytes in it" if line.startswith("live=") and "zero=false" in line else None)
 PROPS["C14"]["fact_checks"] = fact_c14
 
 # ------------------------------------------------------------------ C19 Arduino port
